@@ -31,6 +31,8 @@ func C11(c *Ctx) {
 
 	r.Rule("C11-g", "the display name the error prefix uses is the one the grammar gives: builder.writeRule emits displayName from the rule's DisplayName exactly when it is present (the pairing rule of C01-d under this property)")
 	builderPairingN(c, "C11-g", "writeRule")
+	r.Rule("C11-j", "the leader of a left-recursive group cuts the error list back only to a list that was current when the returned result was recorded (C08-a under this property): errors recorded before the leader was entered, and those of its successful growth attempts, are never dropped")
+	r.Rule("C11-i", "an error cut from the list is reported again if its code block matters again: a store that cuts the error list back to a snapshot (the leader's discard of its final growth attempt) invalidates the memo entries made since the snapshot, so that a rule matching at the same position later runs its action - and reports its error - again (finding F28: it does not)")
 	abs := c.allAbs()
 	r.Min("semantic variants analysed", 16, len(abs))
 	for _, a := range abs {
@@ -38,6 +40,10 @@ func C11(c *Ctx) {
 		c11b(c, a)
 		c11cde(c, a.V)
 		c11f(c, a.V)
+		rolledBackErrorsVsMemo(c, a.V, "C11-i")
+		if a.V.Params.LeftRecursion {
+			leaderFinalAttempt(c, a, "C11-j")
+		}
 	}
 	r.MinRule("C11-a", 3)
 }
